@@ -48,11 +48,17 @@ pub struct CapCtx<'a> {
 	/// address range of the input slice, when deserialising from a slice
 	pub input_range: Option<(usize, usize)>,
 	pub stats: RefCell<CapStats>,
+	/// C12: ignore (IgnoredAny / unit variant) the node with this visit index
+	pub skip_at: Option<usize>,
+	pub skip_union_payload_as_unit_variant: bool,
+	pub node_counter: std::cell::Cell<usize>,
 }
+
+pub const SKIPPED: &str = "\u{1}<skipped>";
 
 impl<'a> CapCtx<'a> {
 	pub fn new(env: &'a Env<'a>, cfg: CapCfg, input: Option<&[u8]>) -> Self {
-		CapCtx { env, cfg, input_range: input.map(|s| (s.as_ptr() as usize, s.as_ptr() as usize + s.len())), stats: RefCell::new(CapStats::default()) }
+		CapCtx { env, cfg, input_range: input.map(|s| (s.as_ptr() as usize, s.as_ptr() as usize + s.len())), stats: RefCell::new(CapStats::default()), skip_at: None, skip_union_payload_as_unit_variant: false, node_counter: std::cell::Cell::new(0) }
 	}
 	fn check_borrow(&self, ptr: *const u8, len: usize, what: &str) {
 		if let Some((lo, hi)) = self.input_range {
@@ -100,6 +106,12 @@ impl<'de, 'c, 'a> DeserializeSeed<'de> for Capture<'c, 'a> {
 		let r = env.resolve(self.s);
 		let k = kind_of_resolved(r);
 		let any = self.ctx.cfg.hint_mode == 1;
+		let idx = self.ctx.node_counter.get();
+		self.ctx.node_counter.set(idx + 1);
+		if self.ctx.skip_at == Some(idx) {
+			<serde::de::IgnoredAny as serde::Deserialize>::deserialize(d)?;
+			return Ok(MValue::Str(SKIPPED.to_string()));
+		}
 		let v = CapVisitor { cap: self, r, k: k.clone() };
 		match k {
 			Kind::Null => {
@@ -585,6 +597,13 @@ impl<'de, 'c, 'a> Visitor<'de> for UnionEnumVisitor<'c, 'a> {
 			return Err(de::Error::custom(format!("capture: union variant name {name:?} matches {} branches", matches.len())));
 		}
 		let i = matches[0];
+		let ctx = self.cap.ctx;
+		if ctx.skip_union_payload_as_unit_variant && ctx.skip_at == Some(ctx.node_counter.get()) {
+			// a unit enum variant for a union branch: the payload is ignored by the crate
+			ctx.node_counter.set(ctx.node_counter.get() + 1);
+			variant.unit_variant()?;
+			return Ok(MValue::Union(i, Box::new(MValue::Str(SKIPPED.to_string()))));
+		}
 		let inner = variant.newtype_variant_seed(Capture { ctx: self.cap.ctx, s: &self.bs[i] })?;
 		Ok(MValue::Union(i, Box::new(inner)))
 	}
@@ -787,5 +806,73 @@ impl<'de, 'c> Visitor<'de> for Digest<'c> {
 			map.next_value_seed(Digest { state: self.state })?;
 		}
 		self.state.mix(11, &[]).map_err(|_| de::Error::custom(BUDGET_MSG))
+	}
+}
+
+/// Model side of the skip numbering: replace the n-th node (pre-order, same
+/// order as `Capture` visits them when unions are read through `deserialize_enum`)
+pub fn replace_nth(env: &Env, s: &MSchema, v: &MValue, n: usize, counter: &mut usize, skipped: &mut Option<(Kind, MValue)>) -> MValue {
+	let idx = *counter;
+	*counter += 1;
+	let r = env.resolve(s);
+	if idx == n {
+		*skipped = Some((kind_of_resolved(r), v.clone()));
+		return MValue::Str(SKIPPED.to_string());
+	}
+	match (&r.ty, v) {
+		(MType::Array(i), MValue::Array(items)) => MValue::Array(items.iter().map(|x| replace_nth(env, i, x, n, counter, skipped)).collect()),
+		(MType::Map(i), MValue::Map(items)) => MValue::Map(items.iter().map(|(k, x)| (k.clone(), replace_nth(env, i, x, n, counter, skipped))).collect()),
+		(MType::Union(bs), MValue::Union(bi, inner)) => MValue::Union(*bi, Box::new(replace_nth(env, &bs[*bi], inner, n, counter, skipped))),
+		(MType::Record { fields, .. }, MValue::Record(vals)) => MValue::Record(fields.iter().zip(vals).map(|((_, f), x)| replace_nth(env, f, x, n, counter, skipped)).collect()),
+		_ => v.clone(),
+	}
+}
+pub fn count_nodes_value(env: &Env, s: &MSchema, v: &MValue) -> usize {
+	let mut c = 0;
+	let mut sk = None;
+	let _ = replace_nth(env, s, v, usize::MAX, &mut c, &mut sk);
+	c
+}
+
+// ---------------------------------------------------------------------------
+// Thread-local route for APIs that want a `T: Deserialize` instead of a seed
+// ---------------------------------------------------------------------------
+
+thread_local! {
+	static CAP_TLS: std::cell::Cell<(*const (), *const MSchema)> = const { std::cell::Cell::new((std::ptr::null(), std::ptr::null())) };
+}
+
+/// Run `f` with (ctx, schema) installed for `TlsCaptured::deserialize`.
+pub fn with_capture_tls<'a, R>(ctx: &CapCtx<'a>, s: &MSchema, f: impl FnOnce() -> R) -> R {
+	struct Reset((*const (), *const MSchema));
+	impl Drop for Reset {
+		fn drop(&mut self) {
+			CAP_TLS.with(|c| c.set(self.0));
+		}
+	}
+	let prev = CAP_TLS.with(|c| c.replace((ctx as *const CapCtx<'a> as *const (), s as *const MSchema)));
+	let _g = Reset(prev);
+	f()
+}
+
+pub struct TlsCaptured(pub MValue);
+impl<'de> serde::Deserialize<'de> for TlsCaptured {
+	fn deserialize<D: Deserializer<'de>>(d: D) -> Result<Self, D::Error> {
+		let (c, s) = CAP_TLS.with(|c| c.get());
+		if c.is_null() {
+			return Err(de::Error::custom("capture: no TLS context installed"));
+		}
+		// SAFETY: installed by with_capture_tls for the duration of the closure, which
+		// is the only place this type is deserialised from
+		let (ctx, s): (&CapCtx<'_>, &MSchema) = unsafe { (&*(c as *const CapCtx<'_>), &*s) };
+		Capture { ctx, s }.deserialize(d).map(TlsCaptured)
+	}
+}
+
+/// `AnyV` as an owned Deserialize type
+pub struct AnyOwned(pub AnyV);
+impl<'de> serde::Deserialize<'de> for AnyOwned {
+	fn deserialize<D: Deserializer<'de>>(d: D) -> Result<Self, D::Error> {
+		AnySeed.deserialize(d).map(AnyOwned)
 	}
 }
